@@ -81,6 +81,37 @@ def mixed_workload(rng, k):
     return chans, m
 
 
+def window_workload(rng):
+    """a steady flow (40 messages of 1-3 fragments, about 90 KB, more than the congestion window) so that
+    SACKs with gap blocks, delayed / reordered SACKs and retransmissions meet live TSNs"""
+    m = [{"from": "A", "sid": 1, "len": sc.size_for(rng.choice([1, 2, 3]), rng)} for _ in range(40)]
+    m += [{"from": "B", "sid": 1, "len": sc.size_for(2, rng), "task": 1}]
+    m += [{"from": "A", "sid": 1, "len": sc.size_for(1, rng), "phase": 2},
+          {"from": "B", "sid": 1, "len": sc.size_for(1, rng), "phase": 2}]
+    return m
+
+
+def stretch(faults, st, ss):
+    """concretise model ordinals for a workload with more packets than the model's"""
+    out = []
+    for f in faults:
+        g = dict(f)
+        if g["k"] == "SACK":
+            g["o"] = 1 + (g["o"] - 1) * ss
+        if g["k"] == "DATA" and "t" in g:
+            g["t"] = g["t"] * st + (st - 1)
+        if g.get("ak") == "SACK" and g.get("at", 0) > 0:
+            g["at"] = g["at"] * st          # acknowledges the (stretched) chunks below it
+        elif g.get("ak") == "SACK" and g["ao"] > 0:
+            g["ao"] = 1 + g["ao"] * ss
+        if g.get("ak") == "GSACK" and g["ao"] > 0:
+            g["ao"] = g["ao"] + ss
+        if g.get("ak") == "DATA" and "at" in g:
+            g["at"] = g["at"] * st + (st - 1)
+        out.append(g)
+    return out
+
+
 def build_scenarios(singles, pairs, mixed, tier):
     rng = random.Random(vlib.seed())
     scen = [sc.scenario("clean", [], [sc.chan(1)], sc.basic_workload(rng), idle_ms=60)]
@@ -95,6 +126,16 @@ def build_scenarios(singles, pairs, mixed, tier):
         wrap = (i % 3 == 0)
         scen.append(sc.scenario(f"p{i:04d}", f, [sc.chan(1)], sc.basic_workload(rng, both=(i % 2 == 1)),
                                 cfg={"init_tsn_a": WRAP_A, "init_tsn_b": WRAP_B} if wrap else None))
+    # a DATA fault combined with a SACK fault (loss behind a delayed / duplicated / reordered SACK) on the
+    # windowed workload
+    cross = [p for p in pairs if {(f["dir"], f["k"].replace("GSACK", "SACK")) for f in p} == {("A", "DATA"), ("B", "SACK")}]
+    # most weight on a delayed SACK (held back or duplicated late, i.e. arriving after a newer one)
+    late = [p for p in cross if any(f["k"] in ("SACK", "GSACK") and f["kind"] in ("hold", "duplate") for f in p)]
+    rest = [p for p in cross if p not in late]
+    chosen_x = cross if tier == "thorough" else (sc.sample(late, 160, vlib.seed() + 9) + sc.sample(rest, 40, vlib.seed() + 10))
+    for i, f in enumerate(chosen_x):
+        scen.append(sc.scenario(f"x{i:04d}", stretch(f, rng.choice([1, 2, 3, 4]), rng.choice([1, 2, 3])), [sc.chan(1)],
+                                window_workload(rng), cfg={"init_tsn_a": WRAP_A - 5} if i % 4 == 0 else None))
     for i, f in enumerate([[]] + mixed):
         chans, msgs = mixed_workload(rng, i)
         scen.append(sc.scenario(f"m{i:03d}", f, chans, msgs, cfg=TSN_SPACES[i % len(TSN_SPACES)]))
